@@ -4,6 +4,7 @@ CONSTANTS
   MaxKK = 1
   MaxRd = 1
   NQ = 1
+  MaxPolls = 2
   MaxLatch = 0
   FileSteps = FALSE
   QKinds = {"past"}
